@@ -40,6 +40,9 @@ def gen(g, count):
     groups = []
     for _ in range(count):
         leaves = [b'calories', b'fat', b'protein']
+        if r.random() < 0.12:
+            # white space other than blank and tab is part of a name, also at its ends, also when the name is a command-line argument
+            leaves[r.randrange(3)] = r.choice(['protein\u00a0', '\u3000fibre', 'iron\u2028', '\u0085zinc', 'salt\x0b', '\x0csugar', '\ufeffB12']).encode()
         recs = []
         for _ in range(r.randint(1, 5)):
             nm = b'/'.join(g.word(2, 6, 0.15).encode() for _ in range(r.randint(1, 3)))
